@@ -356,6 +356,14 @@ UsedEntries(b) ==
     IN [k \in 0..8 |-> CASE k = TAB_IP -> ipI [] k = TAB_CT -> ctI [] k = TAB_NAME -> nmI [] k = TAB_SIG -> sigI
                          [] k = TAB_QLIST -> qlI [] k = TAB_QRR -> qrrI [] k = TAB_RRLIST -> rlI
                          [] k = TAB_RR -> rrI [] OTHER -> mmdI]
+(* the messages of FileErrs that report an index that addresses no table entry (referential closure, C11) *)
+ClosureMsgs ==
+    {nm \o ": index member " \o ToString(k) \o " does not address an existing table entry" :
+         nm \in {"qr-sig", "question", "rr", "malformed-message-data", "response-processing-data", "query-response-extended",
+                 "query-response", "address-event-count", "malformed-message"}, k \in 0..20}
+    \cup {nm \o ": list element does not address an existing table entry" : nm \in {"qlist", "rrlist", "question-list", "rr-list"}}
+ClosureErrs(errs) == errs \cap ClosureMsgs
+
 (* table entries no stored item refers to, as <<table, index>> *)
 Unreachable(b) ==
     LET u == UsedEntries(b) IN
